@@ -381,6 +381,17 @@ def curated_runs():
                     samples=[dict(id='S1', instrument='I1', beads=None, file='c1.fcs', gate_fraction=0.5,
                                   units={c: ('RFI' if i % 2 else 'Channel') for i, c in enumerate(fl11)}, strain='wt', fault=None)],
                     np_seed=5, plot=True, hist=False, default_out=True))
+    # identifiers that are numbers (a spreadsheet hands them over as integers), two instruments whose files name
+    # their channels differently, plots on, calibration requested
+    i2 = dict(id=2, fsc='FSC-A', ssc='SSC-A', fl=['GFP', 'mCherry'], time='TIME')
+    i1n = dict(i1, id=1)
+    out.append(dict(arm='run', instruments=[i1n, i2], beads=[dict(b1, id=1, instrument=1), dict(b1, id=2, instrument=2, file='beads2.fcs', clustering=['GFP'], mef={'GFP': lad})],
+                    files={'beads1.fcs': dict(kind='beads', instrument=1, seed=13), 'beads2.fcs': dict(kind='beads', instrument=2, seed=14),
+                           'c1.fcs': dict(cells(15), instrument=1), 'c2.fcs': dict(cells(16), instrument=2)},
+                    samples=[dict(srow(1, 'c1.fcs', {'FL1-H': 'MEF', 'FL2-H': 'RFI'}), id=101, instrument=1, beads=1),
+                             dict(srow(2, 'c2.fcs', {'GFP': 'MEF'}), id=102, instrument=2, beads=2),
+                             dict(srow(3, 'c2.fcs', {'mCherry': 'a.u.'}), id=103, instrument=2, beads=None)],
+                    np_seed=6, plot=True, hist=True, default_out=False))
     return out
 
 
